@@ -49,10 +49,16 @@ template <class View> static void obs_head(const std::string &p, View v, bool by
 template <class View> static void obs_head_bits(const std::string &p, View v) {
   out(p + ".ok", b(v.Ok())); out(p + ".complete", b(v.IsComplete())); out(p + ".size_known", b(v.SizeIsKnown()));
   if (v.SizeIsKnown()) out(p + ".size", num(v.SizeInBits()));
+  { auto i = v.IntrinsicSizeInBits(); bool k = i.Ok(); out(p + ".intrinsic_ok", b(k)); if (k) out(p + ".intrinsic", num(i.Read())); }
+  { auto m = v.MaxSizeInBits(); if (m.Ok()) out(p + ".max_size", num(m.Read())); else out(p + ".max_size", "notok"); }
+  { auto m = v.MinSizeInBits(); if (m.Ok()) out(p + ".min_size", num(m.Read())); else out(p + ".min_size", "notok"); }
 }
 template <class View> static void obs_head_bytes(const std::string &p, View v) {
   out(p + ".ok", b(v.Ok())); out(p + ".complete", b(v.IsComplete())); out(p + ".size_known", b(v.SizeIsKnown()));
   if (v.SizeIsKnown()) out(p + ".size", num(v.SizeInBytes()));
+  { auto i = v.IntrinsicSizeInBytes(); bool k = i.Ok(); out(p + ".intrinsic_ok", b(k)); if (k) out(p + ".intrinsic", num(i.Read())); }
+  { auto m = v.MaxSizeInBytes(); if (m.Ok()) out(p + ".max_size", num(m.Read())); else out(p + ".max_size", "notok"); }
+  { auto m = v.MinSizeInBytes(); if (m.Ok()) out(p + ".min_size", num(m.Read())); else out(p + ".min_size", "notok"); }
 }
 template <class View, class I> static std::string try_write(View v, I x) { std::string r = b(v.CouldWriteValue(x)); r += b(v.TryToWrite(x)); return r; }
 static std::vector<long long> parse_params(const std::string &s) { std::vector<long long> r; if (s == "-") return r; std::istringstream in(s); std::string t; while (getline(in, t, ',')) r.push_back(strtoll(t.c_str(), nullptr, 10)); return r; }
